@@ -247,10 +247,11 @@ impl ServerMetaContextOutput {
             let head_loc = first_chunk
                 .find("</head>")
                 .expect("you are using leptos_meta without a </head> tag");
-            let marker_loc =
-                first_chunk.find("<!--HEAD-->").unwrap_or_else(|| {
-                    first_chunk.find("</head>").unwrap_or(head_loc)
-                });
+            // the marker of `<MetaTags/>` is in the `<head>`: the same characters further down
+            // (in the text of a `<script>` or `<style>` of the body) are not it
+            let marker_loc = first_chunk[..head_loc]
+                .find("<!--HEAD-->")
+                .unwrap_or(head_loc);
             let (before_marker, after_marker) =
                 first_chunk.split_at_mut(marker_loc);
             let (before_head_close, after_head) =
